@@ -59,6 +59,7 @@ type Ctx struct {
 	trusted map[string]bool
 
 	wantControls []string
+	eff          *effects
 }
 
 func (c *Ctx) add(o Obligation) {
